@@ -41,6 +41,7 @@
     sanitizer_wellnested translator_wellnested
     apply_leaves_origin apply_appends_one_link history_keeps_chains
     lazy_trace_semantics trace_chain_wellnested lazy_raw_chain_wellnested
+    lazy_reader_injects_current_selection lazy_after_adjacent_selections
     apply_transformer_leaves_origins apply_transformer_concatenates history_mixed_keeps_chains
     apply_transformer_runs_in_sequence attr_callable_changes_only_selected substitute_map_are_map_text
     emptytag_wellnested whitespace_filter_wellnested doctype_inserter_wellnested
@@ -652,6 +653,30 @@ example :
   · simp [Admissible, Op.OkGood, Op.next, Content.Ok, OneWriter, wrOp]
   · simp [Admissible, Op.OkGood, Op.OkDirty, Op.next, Content.Ok, OneWriter, wrOp]
   · simp [Admissible, Op.OkGood, Op.next, Content.Ok, OneWriter, wrOp]
+
+/-- What a lazily read buffer holds at an injection: `Transformer('r/text()|b/text()').copy(b).after(b)` on
+    `<r>t<b>u</b></r>` puts a copy of EACH selection behind it (`t t`, `u u`) — the reader runs interleaved
+    with the writer — whereas the stage-wise reading of the same chain would inject the final content of
+    the buffer (`t u`, `u u`): the chain is not `stagewise`, the trace semantics is its compositional reading. -/
+theorem lazy_reader_injects_current_selection :
+    lazyOut 0 [.select [.none, .hit, .none, .hit, .none, .none], .copy 0 false, .after (.buf 0)]
+      [.start (qn 'r') [], .text ['t'] false, .start (qn 'b') [], .text ['u'] false, .end_ (qn 'b'), .end_ (qn 'r')] =
+      some [.start (qn 'r') [], .text ['t'] false, .text ['t'] false, .start (qn 'b') [], .text ['u'] false,
+        .text ['u'] false, .end_ (qn 'b'), .end_ (qn 'r')] ∧
+    transform [.select [.none, .hit, .none, .hit, .none, .none], .copy 0 false, .after (.buf 0)]
+      [.start (qn 'r') [], .text ['t'] false, .start (qn 'b') [], .text ['u'] false, .end_ (qn 'b'), .end_ (qn 'r')] =
+      some [.start (qn 'r') [], .text ['t'] false, .text ['u'] false, .start (qn 'b') [], .text ['u'] false,
+        .text ['u'] false, .end_ (qn 'b'), .end_ (qn 'r')] := by decide
+
+/-- … with one quirk (bug-compatible, tied by the stream `chains-lazy`): a selection that is DIRECTLY followed
+    by another selection is closed only when the first item of the following one arrives, and the writer hands
+    that item on after it has copied the whole following selection — so `after(b)` injects the FOLLOWING
+    selection there.  `<r>t<a/></r>`, text and element selected: `t` is followed by `<a/>`, not by `t`. -/
+theorem lazy_after_adjacent_selections :
+    lazyOut 0 [.select [.none, .hit, .hit, .none], .copy 0 false, .after (.buf 0)]
+      [.start (qn 'r') [], .text ['t'] false, .start (qn 'a') [], .end_ (qn 'a'), .end_ (qn 'r')] =
+      some [.start (qn 'r') [], .text ['t'] false, .start (qn 'a') [], .end_ (qn 'a'), .start (qn 'a') [],
+        .end_ (qn 'a'), .start (qn 'a') [], .end_ (qn 'a'), .end_ (qn 'r')] := by decide
 
 /-! ## the other built-in stream filters: well-nestedness theorems of their owners, re-used
 
